@@ -317,6 +317,98 @@ def run_greenlet(case, stats):
   return []
 
 
+def gen_valcons(c):
+  """RD(x) / WR(x) value constraints on ONE signal declared by TWO components (the child that owns it and its
+  parent): every declaration must survive the merge of the per-component tables"""
+  return {"child_early": c.randint(0, 2), "parent_early": c.randint(1, 2), "child_late": c.randint(0, 1),
+          "parent_late": c.randint(0, 2), "early_reads": [c.random() < 0.5 for _ in range(4)],
+          "spelling": [c.random() < 0.5 for _ in range(8)], "one_call": c.random() < 0.5}
+
+
+def valcons_source(t, uid):
+  L = ["from pymtl3 import *", "", "TRACE_%s = []" % uid, "",
+       "class Child_%s(Component):" % uid, "  def construct(s):", "    s.in_ = InPort(Bits8)", "    s.out = OutPort(Bits8)",
+       "    s.t = [Wire(Bits8) for _ in range(4)]",
+       "    @update", "    def c_wr():", "      TRACE_%s.append('c_wr')" % uid, "      s.out @= s.in_ + 1",
+       "    @update", "    def c_rd():", "      TRACE_%s.append('c_rd')" % uid, "      s.t[3] @= s.out"]
+  cons = []
+  k = 0
+  for i in range(t["child_early"]):
+    L += ["    @update", "    def c_early%d():" % i, "      TRACE_%s.append('c_early%d')" % (uid, i),
+          "      s.t[%d] @= %s" % (i, "s.out" if t["early_reads"][i] else "s.in_")]
+    cons.append("U(c_early%d) < WR(s.out)" % i if t["spelling"][k] else "WR(s.out) > U(c_early%d)" % i)
+    k += 1
+  for i in range(t["child_late"]):
+    L += ["    @update", "    def c_late%d():" % i, "      TRACE_%s.append('c_late%d')" % (uid, i), "      s.t[2] @= s.in_"]
+    cons.append("RD(s.out) < U(c_late%d)" % i if t["spelling"][k] else "U(c_late%d) > RD(s.out)" % i)
+    k += 1
+  if cons:
+    L.append("    s.add_constraints(%s)" % ", ".join(cons) if t["one_call"] else
+             "\n".join("    s.add_constraints(%s)" % x for x in cons))
+  L += ["", "class Top_%s(Component):" % uid, "  def construct(s):", "    s.in_ = InPort(Bits8)", "    s.child = Child_%s()" % uid,
+        "    s.child.in_ //= s.in_", "    s.u = [Wire(Bits8) for _ in range(4)]"]
+  cons = []
+  for i in range(t["parent_early"]):
+    L += ["    @update", "    def p_early%d():" % i, "      TRACE_%s.append('p_early%d')" % (uid, i),
+          "      s.u[%d] @= %s" % (i, "s.child.out" if t["early_reads"][2 + i] else "s.in_")]
+    cons.append("U(p_early%d) < WR(s.child.out)" % i if t["spelling"][k] else "WR(s.child.out) > U(p_early%d)" % i)
+    k += 1
+  for i in range(t["parent_late"]):
+    L += ["    @update", "    def p_late%d():" % i, "      TRACE_%s.append('p_late%d')" % (uid, i), "      s.u[%d] @= s.in_" % (2 + i)]
+    cons.append("RD(s.child.out) < U(p_late%d)" % i if t["spelling"][k] else "U(p_late%d) > RD(s.child.out)" % i)
+    k += 1
+  L.append("    s.add_constraints(%s)" % ", ".join(cons) if t["one_call"] else
+           "\n".join("    s.add_constraints(%s)" % x for x in cons))
+  return "\n".join(L) + "\n"
+
+
+def run_valcons(case, stats):
+  from ..sched import harness
+  from pymtl3 import Bits8
+  t = case["tmpl"]
+  early = ["c_early%d" % i for i in range(t["child_early"])] + ["p_early%d" % i for i in range(t["parent_early"])]
+  late = ["c_late%d" % i for i in range(t["child_late"])] + ["p_late%d" % i for i in range(t["parent_late"])]
+  for sched, sseed in case["scheds"]:
+    seams.set_hash_stream(case["hash_seed"] ^ sseed)
+    try:
+      ns, cls, _ = emit.build({"uid": case["uid"], "top": "Top"}, src=valcons_source(t, case["uid"]))
+      top = cls()
+      top.elaborate()
+      harness.prepare(top, sched, sseed)
+      top.sim_reset()
+    except Exception as e:
+      return [C.exc_violation(e, "build/%s" % sched)]
+    stats["fault_counts"]["sched." + sched] = stats["fault_counts"].get("sched." + sched, 0) + 1
+    trace = ns["TRACE_" + case["uid"]]
+    for cyc in range(2):
+      del trace[:]
+      top.in_ @= Bits8(17 * cyc + 3)
+      try:
+        top.sim_eval_combinational()
+      except Exception as e:
+        return [C.exc_violation(e, "sim/%s" % sched)]
+      tr = list(trace)
+      stats["schedules"].append(_rng.digest(tr))
+      for n in early + late + ["c_wr", "c_rd"]:
+        if tr.count(n) != 1:
+          return [C.viol("exactly_once", {"sched": sched, "block": n, "count": tr.count(n), "kind": "valcons", "trace": tr})]
+      pos = {b: i for i, b in enumerate(tr)}
+      for e in early:
+        stats["pairs_checked"] += 1
+        if pos[e] > pos["c_wr"]:
+          return [C.viol("explicit_order", {"sched": sched, "sched_seed": sseed, "before": e, "after": "c_wr (writer of s.child.out)",
+                                            "kind": "valcons", "trace": tr})]
+      for l in late:
+        stats["pairs_checked"] += 1
+        # after every reader of the signal: c_rd always reads it, early blocks that read it as well
+        readers = ["c_rd"] + [e for j, e in enumerate(early) if t["early_reads"][j if e.startswith("c_") else 2 + int(e[-1])]]
+        for rdr in readers:
+          if pos[rdr] > pos[l]:
+            return [C.viol("explicit_order", {"sched": sched, "sched_seed": sseed, "before": rdr + " (reader)", "after": l,
+                                              "kind": "valcons", "trace": tr})]
+  return []
+
+
 def run_methods(case, stats):
   from ..sched import harness
   t = case["tmpl"]
@@ -367,6 +459,11 @@ def gen_case(R, tier):
   s = R("sched")
   r = c.random()
   base = {"hash_seed": R.sub_seed("hash")}
+  if r < 0.03:
+    base.update(kind="valcons", tmpl=gen_valcons(c), uid="v%x" % (R.seed & 0xffffff),
+                scheds=[[x, s.getrandbits(32)] for x in s.sample(
+                  ("default", "default_s2", "mamba", "mamba_s2", "simple", "simple_s2", "unroll", "heutopo", "forced"), 3)])
+    return base
   if r < 0.05:
     base.update(kind="greenlet", tmpl=gen_greenlet(c), uid="g%x" % (R.seed & 0xffffff),
                 scheds=[[x, s.getrandbits(32)] for x in s.sample(
@@ -649,6 +746,8 @@ def run_case(case):
     v = run_methods(case, stats)
   elif kind == "greenlet":
     v = run_greenlet(case, stats)
+  elif kind == "valcons":
+    v = run_valcons(case, stats)
   else:
     v = run_novar(case, stats)
   stats["fault_counts"]["kind." + kind] = 1
@@ -665,6 +764,8 @@ def sample(case):
     return {"kind": "dataflow", "scheds": case["scheds"], "source_head": emit.source(case["spec"])[:1200]}
   if case["kind"] == "methods":
     return {"kind": "methods", "scheds": case["scheds"], "source": methods_source(case["tmpl"], case["uid"])}
+  if case["kind"] == "valcons":
+    return {"kind": "valcons", "scheds": case["scheds"], "source": valcons_source(case["tmpl"], case["uid"])}
   if case["kind"] == "greenlet":
     return {"kind": "greenlet", "scheds": case["scheds"], "source": greenlet_source(case["tmpl"], case["uid"])}
   return {"kind": case["kind"], "scheds": case["scheds"],
@@ -679,6 +780,11 @@ def shrink(case):
       for s in case["scheds"]:
         yield dict(case, scheds=[s])
     t = case["tmpl"]
+    if case["kind"] == "valcons":
+      for key in ("child_early", "parent_early", "child_late", "parent_late"):
+        if t[key] > (1 if key == "parent_early" else 0):
+          yield dict(case, tmpl=dict(t, **{key: t[key] - 1}))
+      return
     if case["kind"] == "greenlet":
       for i in range(len(t["uu"])):
         yield dict(case, tmpl=dict(t, uu=t["uu"][:i] + t["uu"][i + 1:]))
